@@ -673,6 +673,11 @@ func (e *engine) Execute(raw json.RawMessage) (vd harness.Verdict) {
 		vd.V = viol("task-died", "a routine died with %v", t.PanicVal)
 		return
 	}
+	if m, races := sched.UnknownRaces(s.MapRaces, nil); m != "" {
+		pin()
+		vd.V = viol("map-race:"+m, "two routines access the Go map %s with nothing ordering them (kind, site of the open write window, site of the other access): %v", m, races)
+		return
+	}
 	for _, r := range recs {
 		if r.out.Cond == "host-fault" {
 			pin()
